@@ -51,6 +51,10 @@ func setPayload(cmd map[string]interface{}, text string) {
 }
 
 func runHistory(raw json.RawMessage) (interface{}, error) {
+	return retryHang("watchbackend", func() (interface{}, error) { return runHistoryOnce(raw) })
+}
+
+func runHistoryOnce(raw json.RawMessage) (interface{}, error) {
 	var in histIn
 	if err := json.Unmarshal(raw, &in); err != nil {
 		return nil, err
